@@ -227,6 +227,21 @@ def apply_effect(fd, e, args, workdir, tag):
                 fd.nodes.data = d
             else:                           # in place, nothing assigned
                 fd.nodes.data[:, 0] = fd.nodes.data[:, 0] * 2. + 1.
+        elif e == 'reindex_nodes':
+            kind = args.get('kind', 'ids_roll')
+            ids = np.array(fd.nodes.ids).copy()
+            xyz = np.array(fd.nodes.data).copy()
+            if kind == 'ids_roll':
+                # re-label: every node id now names the next row (the id set stays the same)
+                fd.nodes.ids = np.roll(ids, 1)
+            elif kind == 'ids_reverse':
+                fd.nodes.ids = ids[::-1].copy()
+            elif kind == 'update_overwrite':
+                # replace the coordinates of two existing nodes (the table is rebuilt, sorted by id)
+                k = [0, len(ids) - 1]
+                fd.nodes.update(ids[k], xyz[k] * 2. + 1., allow_overwrite=True)
+            else:                           # 'update_add': one more (unreferenced) node
+                fd.nodes.update([int(ids.max()) + 5], np.array([[9., 8., 7.]]), allow_overwrite=True)
         elif e == 'edit_user_variable':
             a = fd.nodal_data['u']
             if args.get('kind') == 'assign':
